@@ -54,8 +54,6 @@ GetProp(o, key) ==
 (***************************************************************************)
 (* Number::toString on the modelled numbers (6.1.6.1.20)                   *)
 (***************************************************************************)
-RECURSIVE IntDigits(_)
-IntDigits(n) == IF n < 10 THEN <<48 + n>> ELSE IntDigits(n \div 10) \o <<48 + (n % 10)>>
 RECURSIVE FracDigits(_, _)
 FracDigits(r, den) == IF r = 0 THEN <<>> ELSE <<48 + ((r * 10) \div den)>> \o FracDigits((r * 10) % den, den)
 NumToString(n) ==
